@@ -13,6 +13,9 @@ import z3
 from pyvc.core import And, Eq, Implies, Not, Or, SBool, SEnum, SInt, SReal, SStr, Outside, _t
 from pyvc.interp import Config, Obj, Opaque, PyRaise, SymDict, PyDict, PyList, ExcObj, bexc
 
+A_ASCII = ("A-ASCII: the text of the frames a connection sends in these proofs (CompIDs, field values, echoed inbound "
+           "values) is ASCII, so its utf-8 image is the text itself; send_msg refuses any other text with EncodingError "
+           "before a number is consumed or a byte is written (proved on the real bodies in C02)")
 CONN = "asyncfix.connection.AsyncFIXConnection"
 SESSION_TYPES = ["0", "1", "2", "3", "4", "5", "A"]  # the session message types the dispatcher knows + Reject
 ST = dict(UNKNOWN=0, DISCONNECTED_NOCONN_TODAY=1, DISCONNECTED_WCONN_TODAY=2, DISCONNECTED_BROKEN_CONN=3,
@@ -64,6 +67,8 @@ def mk_msg(I, name="m", mtype=None, allow_err=False, fixed=None):
             return True, fixed[key]
         has = c.inp_bool(f"{name}_has_{key}")
         val = c.inp_str(f"{name}_v{key}")
+        # replayable models: field values are ASCII text (A-ASCII; send_msg refuses anything else, see C02)
+        c.realism.append(z3.InRe(val.t, z3.Star(z3.Range(" ", "~"))))
         if allow_err:
             err = c.inp_bool(f"{name}_err_{key}")
             if I.ctx.branch(And(has, err)):
